@@ -65,13 +65,15 @@ let chunk_name (site : string) (dc : bool) (i : int) : string =
   else if L.mem site audio_names && i = 3 then "samplerate-fraction-dropped"
   else if (site = "avcC" || site = "hvcC") && i = 5 then "bytes-after-record-dropped"
   else if site = "elng" && i = 0 then "elng-unterminated-language-rewritten"
+  else if site = "esds" then "esds-size-field-rewritten"
   else if dc then "reserved-bits-rewritten" else Printf.sprintf "chunk%d-rewritten" i
 let reason_str (site : string) (r : reason) : string =
   match r with
   | RLarge -> "large-size-header-compacted"
   | RSizeBig -> "size-field-above-fields"
   | RSizeSmall -> "size-field-below-fields"
-  | RGuard -> if site = "senc" then "senc-sample-count-zero-data-dropped" else "trun-data-offset-zero"
+  | RGuard -> if site = "senc" then "senc-sample-count-zero-data-dropped"
+              else if site = "esds" then "esds-noncanonical-size-field-or-unknown-data" else "trun-data-offset-zero"
   | RMoov -> "trak-reordered"
   | RMoof -> "moof-trun-data-offset-zero"
   | RRsv (dc, i) -> chunk_name site dc (int_of_nat i)
